@@ -56,7 +56,7 @@ var familyWeights = []struct {
 	{"engine", "contact-missing-fields", 4}, {"engine", "mix", 14},
 	{"migrate", "mix", 6}, {"migrate", "legacy-corpus", 3}, {"clone", "mix", 4}, {"clone", "overlapping-mapping", 5}, {"query", "mix", 5},
 	{"xobject", "mix", 4}, {"xobject", "casevariant-get", 3},
-	{"definition", "invalid-headers", 3}, {"urns", "percent-escape", 2}, {"engine", "asset-order", 6},
+	{"definition", "invalid-headers", 3}, {"urns", "percent-escape", 2}, {"dates", "locale-names", 3}, {"dates", "parse-error-token", 2}, {"names", "flow-resolution", 3}, {"engine", "asset-order", 6},
 	{"services", "dtone-two-currencies", 2}, {"services", "luis-intent-ties", 2}, {"services", "luis-distinct-scores", 2}, {"services", "wit-entity-roles", 2},
 }
 
@@ -115,6 +115,10 @@ func buildScenarios(seed uint64, n int) []*scenario {
 			s = invalidDefScenario(g, i)
 		case "urns":
 			s = urnEscapeScenario(g, i)
+		case "dates":
+			s = datesScenario(g, fw.feature, i)
+		case "names":
+			s = flowNameScenario(g, i)
 		}
 		res = append(res, s)
 	}
@@ -222,6 +226,12 @@ func classify(s *scenario, outName string, a, b []byte) (string, string) {
 		if i := strings.Index(outName, "."); i >= 0 {
 			outName = "sprint" + outName[i:]
 		}
+	}
+	switch s.Family {
+	case "dates/locale-names":
+		return "dates:locale-match-map-order", p
+	case "dates/parse-error-token":
+		return "dates:parse-error-ambiguous-layout-token", p
 	}
 	if s.Family == "urns/percent-escape" {
 		// gocommon urns.unescape ranges over a map (outside the goflow module): known finding
